@@ -125,7 +125,7 @@ func SimpleObject(val any) (obj Object) {
 	case map[string]any:
 		list := make(List, 0, len(tv))
 		for k, v2 := range tv {
-			list = append(list, List{String(k), Tail{Value: SimpleObject(v2)}})
+			list = append(list, Cons(String(k), SimpleObject(v2)))
 		}
 		obj = list
 
